@@ -1088,6 +1088,8 @@ def _describe_place(prog, body, pl, depth, seen):
                 base = base[1][idx]
             elif base[0] == "closure" and len(base) > 2 and idx < len(base[2]):
                 base = base[2][idx]       # captured value of a closure whose body was inlined (hv/inline.py)
+            elif idx == 0 and base[0] == "call" and base[1].endswith("ops::Try>::branch") and len(base[2]) == 1 and _continue_payload(base[2][0]) is not None:
+                base = _continue_payload(base[2][0])   # `Ok(v)?` / `Some(v)?` of a value built in this body (an inlined helper's result): v
             else:
                 base = ("field", base, idx)
         elif f[0] == "i":
@@ -1097,6 +1099,22 @@ def _describe_place(prog, body, pl, depth, seen):
         else:
             base = ("index", base, ("lit", f[1]))
     return base
+
+
+def _continue_payload(x):
+    """The payload `?` hands on when its operand is a known Ok(v) / Some(v), or a merge of exactly one such value with values that
+    can only take the early-return edge (from_residual results, Err(..), None)."""
+    def early(y):
+        return (y[0] == "variant" and y[2] in ("Err", "None")) or (y[0] == "call" and y[1].endswith("::from_residual"))
+    if not isinstance(x, tuple) or not x:
+        return None
+    if x[0] == "variant" and x[2] in ("Ok", "Some") and len(x[3]) == 1 and (x[1].endswith("result::Result") or x[1].endswith("option::Option")):
+        return x[3][0]
+    if x[0] == "multi":
+        goods = [y for y in x[1] if not early(y)]
+        if len(goods) == 1 and len(x[1]) > 1:
+            return _continue_payload(goods[0])
+    return None
 
 
 def describe_rv(prog, body, rv):
@@ -1299,6 +1317,41 @@ def _flag_root(body, l):
     return l, neg
 
 
+def _expand_flag(prog, body, fl, val, out, depth, _seen=None):
+    """What else holds when the boolean local `fl` has value `val`: the guards of the assignment that gives it that value."""
+    _seen = _seen or set()
+    if fl is None or (fl, val) in _seen or depth >= 4:
+        return
+    _seen.add((fl, val))
+    fd = _flag_defs(body, fl)
+    if fd is not None:
+        if len(fd[val]) == 1:
+            for g in guards_dominating(prog, body, fd[val][0], depth + 1):
+                if g not in out:
+                    out.append(g)
+        return
+    # short-circuit chains: `a && b` is (b on the path where a held | false), `a || b` is (true | b where a failed).
+    # true for an &&-chain / false for an ||-chain means the one non-constant assignment ran and had that value.
+    sc = _short_circuit_def(body, fl)
+    if sc is None or sc[0] != val:
+        return
+    nblk = sc[1]
+    for g in guards_dominating(prog, body, nblk, depth + 1):
+        if g not in out:
+            out.append(g)
+    # the computed operand may itself be a boolean local built the same way (`a && helper(x)` with the helper inlined)
+    ds = [d for d in body.defs().get(fl, []) if d[0] == nblk and d[2] == "assign" and d[3]["rv"]["k"] == "use" and op_local(d[3]["rv"]["o"]) is not None
+          and not d[3]["rv"]["o"]["pl"]["p"]]
+    if ds:
+        src, neg2 = _flag_root(body, op_local(ds[0][3]["rv"]["o"]))
+        if src is not None and src != fl and body.local_ty(src) == "bool" and src > body.argc:
+            _expand_flag(prog, body, src, val != neg2, out, depth + 1, _seen)
+            if _flag_defs(body, src) is not None or _short_circuit_def(body, src) is not None:
+                return
+    pseudo = (nblk, "true" if val else "false", sc[2](prog), {"kind": "bool", "edges": {}, "otherwise": None, "block": nblk, "pseudo": True, "src": None, "local": None})
+    out.append(pseudo)
+
+
 def guards_dominating(prog, body, b, _depth=0):
     """Every (switch_block, label, discr_description, info) whose labelled edge dominates block b.
     A test of a constant-assigned boolean (`let found = ..early returns true / false..`, an inlined predicate helper) also
@@ -1326,24 +1379,7 @@ def guards_dominating(prog, body, b, _depth=0):
                     out.append((s, lab, d, info))
                     if lab in ("true", "false") and _depth < 3:
                         fl, neg = _flag_root(body, op_local(t["discr"]))
-                        fd = _flag_defs(body, fl)
-                        val = (lab == "true") != neg
-                        if fd is not None:
-                            if len(fd[val]) == 1:
-                                for g in guards_dominating(prog, body, fd[val][0], _depth + 1):
-                                    if g not in out:
-                                        out.append(g)
-                        else:
-                            # short-circuit chains: `a && b` is (b on the path where a held | false), `a || b` is (true | b where a failed).
-                            # true for an &&-chain / false for an ||-chain means the one non-constant assignment ran and had that value.
-                            sc = _short_circuit_def(body, fl)
-                            if sc is not None and sc[0] == val:
-                                nblk, ndesc = sc[1], sc[2](prog)
-                                for g in guards_dominating(prog, body, nblk, _depth + 1):
-                                    if g not in out:
-                                        out.append(g)
-                                pseudo = (nblk, "true" if val else "false", ndesc, {"kind": "bool", "edges": {}, "otherwise": None, "block": nblk, "pseudo": True, "src": None, "local": None})
-                                out.append(pseudo)
+                        _expand_flag(prog, body, fl, (lab == "true") != neg, out, _depth)
     return out
 
 
